@@ -517,6 +517,12 @@ func (i *Interp) Explore(job *Job, setup, run *ssa.Function, lim Limits, base []
 				res.Inconcl = append(res.Inconcl, "panic path without model: "+out.msg)
 			}
 		case "stop":
+		case "deadlock":
+			if i.solver.Check() == Sat {
+				ps.violations = append(ps.violations, Violation{Kind: "deadlock", Msg: out.msg, Pos: i.where(), Witness: i.witness(job)})
+			} else {
+				res.Inconcl = append(res.Inconcl, "deadlock path without model: "+out.msg)
+			}
 		default:
 			res.Inconcl = append(res.Inconcl, out.kind+": "+out.msg+" at "+i.where())
 		}
